@@ -58,7 +58,7 @@ def _valid_step(rng, v, r, inbound, t, cfg):
         st["channel"] = rng.choice([0, 1, 523, 525, -5])
     if rng.random() < 0.12:
         st["extra"] = bytes(rng.randrange(256) for _ in range(rng.randint(1, 4))).hex()
-    if rng.random() < cfg.get("p_corrupt", 0.0) and name not in ("ChatFromViewer", "RegionHandshake", "AgentMovementComplete"):
+    if rng.random() < cfg.get("p_corrupt", 0.0) and name not in ("ChatFromViewer",):
         # body damaged in flight (header stays valid): "cannot be decoded" -> discard cleanly, or pass through intact
         kind = rng.choice(["truncate", "setbyte", "extend"])
         c = {"kind": kind}
